@@ -229,10 +229,10 @@ class DesignMemo:
         memo = self
         self._orig = gm.GHEManager.find_design
 
-        def find_design(mgr, throw: bool = True):
+        def find_design(mgr, *a, **kw):
             key = memo.current_key
             if key is None:
-                return memo._orig(mgr, throw)
+                return memo._orig(mgr, *a, **kw)
             if key in memo.store:
                 kind, payload = memo.store[key]
                 if kind == "exc":
@@ -241,7 +241,7 @@ class DesignMemo:
                 return 0
             memo.real_calls += 1
             try:
-                rv = memo._orig(mgr, throw)
+                rv = memo._orig(mgr, *a, **kw)
             except Exception as e:  # noqa: BLE001
                 memo.store[key] = ("exc", e)
                 raise
